@@ -635,6 +635,9 @@ impl World {
         };
         node.unst = Self::shadow_unstable(raw);
         node.obs = post.clone();
+        if self.verbose && post.read_states_len != pre.read_states_len {
+            eprintln!("   step {} node {n}: read_states {} -> {} in {}", self.step_no, pre.read_states_len, post.read_states_len, kind_name(&kind));
+        }
         let (val, err) = match res {
             Ok(v) => (Some(v), None),
             Err(e) => (None, Some(e)),
@@ -681,6 +684,16 @@ impl World {
         }
         self.bump("msgs_delivered");
         let m = fl.msg;
+        if m.get_msg_type() == MessageType::MsgReadIndex && !m.entries.is_empty() {
+            let key = (to, m.entries[0].data.to_vec());
+            if !self.ghost.read_forward_seen.insert(key) {
+                self.ghost.dup_read_at.insert(to);
+                self.bump("duplicate_forwarded_read_delivered");
+            }
+        }
+        if self.verbose {
+            eprintln!("   step {} deliver {}>{}#{} {:?} t{} i{} lt{} c{} e{} rej{} ctx{:?} (sender incarnation {})", self.step_no, k.f, k.t, k.s, m.get_msg_type(), m.term, m.index, m.log_term, m.commit, m.entries.len(), m.reject, &m.context[..], fl.sender_inc);
+        }
         let mc = m.clone();
         self.call(to, CallKind::Step(Box::new(mc)), move |raw| raw.step(m).map_err(|e| format!("{e:?}")))?;
         Ok(())
